@@ -63,6 +63,7 @@ func GenShimCase(t *rapid.T, pr ShimProfile) ShimCase {
 			KeyIDClass: rapid.SampledFrom(pr.KeyIDClasses).Draw(t, fmt.Sprintf("certKID%d", i)),
 			Validity:   rapid.SampledFrom(pr.Validities).Draw(t, fmt.Sprintf("certVal%d", i)),
 			Serial:     uint64(1000 + i),
+			Host:       rapid.IntRange(0, 7).Draw(t, fmt.Sprintf("certHost%d", i)) == 5,
 		}
 		if d.Validity == "lapsing" {
 			if lapsing {
@@ -207,7 +208,7 @@ func GenShimCase(t *rapid.T, pr ShimProfile) ShimCase {
 					op.Body[j] = byte(j * 31)
 				}
 			default:
-				op.Body = append([]byte{byte(rapid.SampledFrom([]int{0, 2, 3, 4, 7, 8, 10, 12, 14, 15, 16, 24, 29, 30, 31, 35, 39, 40, 100, 200, 255}).Draw(t, l+"Code"))}, rapid.SliceOfN(rapid.Byte(), 0, 40).Draw(t, l+"Body")...)
+				op.Body = append([]byte{byte(rapid.OneOf(rapid.SampledFrom([]int{0, 2, 3, 4, 7, 8, 10, 12, 14, 15, 16, 20, 21, 21, 24, 26, 28, 29, 30, 31, 32, 33, 34, 35, 39, 40, 100, 200, 255}), rapid.IntRange(0, 255)).Draw(t, l+"Code"))}, rapid.SliceOfN(rapid.Byte(), 0, 40).Draw(t, l+"Body")...)
 			}
 		case "extension":
 			op.Body = rapid.SliceOfN(rapid.Byte(), 0, 32).Draw(t, l+"Body")
